@@ -178,6 +178,13 @@ fn replay(path: &str) -> ! {
             let o = run_on(&mut m, &x, &mut wr, Pattern::NONE);
             println!("round {r}: run(\"{}\") with heapless::Vec<u8,8> -> {} allocation calls", show(&x), o.allocs);
             bad[r] = o.allocs != 0;
+        } else if w["engine"] == "run-typ" {
+            let x = unhex(w["input"].as_str().unwrap());
+            let mut m = mc::ifaces::Typ;
+            let mut wr: heapless::Vec<u8, 8> = heapless::Vec::new();
+            let o = run_on(&mut m, &x, &mut wr, Pattern::NONE);
+            println!("round {r}: run(\"{}\") on the typed interface -> {} allocation calls", show(&x), o.allocs);
+            bad[r] = o.allocs != 0;
         } else if w["engine"] == "run-lexi" {
             let x = unhex(w["input"].as_str().unwrap());
             let mut m = mc::ifaces::Lexi;
@@ -453,11 +460,34 @@ pub fn main() {
         big_execs += n;
     }
 
+    // numeric parameters with fields of 1..=40 digits (also with white space in front of the
+    // exponent) on every parameter type of the typed interface
+    let mut num_execs = 0u64;
+    {
+        use mc::ifaces::typ::TYPES;
+        use mc::ifaces::Typ;
+        for l in mc::util::long_numeric_literals() {
+            for (_, mn) in TYPES {
+                let x = format!("{mn} {l}\n").into_bytes();
+                let mut m = Typ;
+                let mut w: heapless::Vec<u8, 8> = heapless::Vec::new();
+                let o = run_on(&mut m, &x, &mut w, Pattern::NONE);
+                num_execs += 1;
+                if o.end == End::Returned && o.allocs != 0 {
+                    let f = vec![("engine", "run-long-numeric-fields".to_string())];
+                    out.groups.add("no-allocation", &f, (x.len(), &x), || {
+                        (json!({"engine": "run-typ", "input": hex(&x)}), format!("run(\"{}\") on the typed interface: {} heap allocation calls", show(&x), o.allocs))
+                    });
+                }
+            }
+        }
+    }
+
     // response value tables
     let mut resp_execs = 0u64;
     response_table(&mut out.groups, &mut resp_execs);
 
-    let total = lex_execs + proc_execs + resp_execs + hdr_execs + big_execs;
+    let total = lex_execs + proc_execs + resp_execs + hdr_execs + big_execs + num_execs;
     out.cov("states", total);
     out.cov("transitions", total);
     out.cov("traces_validated_against_impl", total);
@@ -472,6 +502,7 @@ pub fn main() {
         json!({"lex_run": {"alphabet": lex::sigma_json(), "max_tokens": lex_len, "second_alphabet": lex::sigma_alt_json(), "second_alphabet_max_tokens": lex_len - 1, "writer": "heapless::Vec<u8,64>", "executions": lex_execs},
                "process": {"pool": POOL.iter().map(|m| show(m)).collect::<Vec<_>>(), "max_messages": k, "N": [16, 64], "chunkings": "all with <=2 cuts + one byte per read", "executions": proc_execs},
                "large_handler_futures": {"future_sizes_KiB": [1, 5, 20, 70, 130], "messages": "all of <=2 units over 9 units", "through": "run (heapless::Vec<u8,64>) and process::<32> with 1, 3 and all bytes per read", "executions": big_execs},
+               "long_numeric_fields": {"digits": "1..=40 in mantissa, fraction, exponent, radix literals, block length; also with white space in front of the exponent", "parameter_types": 15, "executions": num_execs},
                "long_mnemonics": {"lengths": "1..=40, both cases, declared mnemonics of 11 and 23 characters", "executions": hdr_execs},
                "write_response": {"values": resp_execs, "writer": "heapless::Vec<u8,512>", "types": "bool, all integer widths, f32/f64 (every sign/exponent x 3 mantissas), &str, heapless::String, Characters, Arbitrary, tuples, slices, heapless::Vec, Error, ()"}}),
     );
